@@ -862,6 +862,20 @@ def _check_assumed_derives(template_text, repo_root):
     undecided: GenError, exit 2."""
     out = []
     for line in template_text.split("\n"):
+        mt = re.match(r"\s*//@assume-text\s+(\S+)\s*::\s*(.+)$", line)
+        if mt:
+            # the template instantiates a macro of the repository with arguments written in the TEMPLATE ({subst=...}); the invocation in the
+            # repository that decides those arguments must still read as assumed (compared modulo white space), else the unit is undecided
+            rel, want = mt.group(1), mt.group(2).strip()
+            try:
+                src = open(os.path.join(repo_root, rel)).read()
+            except OSError:
+                raise GenError("assume-text: cannot read %s" % rel)
+            norm = lambda t: re.sub(r"\s+", " ", t).strip()
+            if norm(want) not in norm(src):
+                raise GenError("assumption lost: %s no longer contains `%s` (macro instances in the template were written for that invocation)" % (rel, norm(want)))
+            out.append("// assumed invocation (checked against the repository's text): %s :: %s" % (rel, norm(want)))
+            continue
         m = re.match(r"\s*//@assume-derive\s+(\S+)\s*::\s*(\w+)\s*::\s*(.+)$", line)
         if not m:
             out.append(line)
